@@ -145,6 +145,39 @@ setIdNS n1 urn:u1 id 1
 getById n0 x
 remAttrNS n1 urn:u1 id
 getById n0 x''',
+ 'range-surround-hierarchy-error': '''newdoc=n0 ~ r 0
+bind=n1 n0 de
+cA=n2 n0 a
+cT=n3 n0 x
+app n2 n3
+setAttrNode=n4 n1 n2
+cE=n5 n0 e
+mkRange v0 n0
+rg v0 selectNodeContents n2
+rg v0 surround n5''',
+ 'range-boundary-in-released-attribute': '''newdoc=n0 ~ r 0
+bind=n1 n0 de
+setAttr n1 a v
+getAttrNode=n2 n1 a
+mkRange v0 n0
+rg v0 selectNodeContents n2
+remAttr n1 a !n2
+cA=n3 n0 zz
+rg v0 get''',
+ 'range-delete-other-range-offsets': '''newdoc=n0 ~ r 0
+bind=n1 n0 de
+cT=n2 n0 hello
+cE=n3 n0 e
+app n1 n2
+app n1 n3
+mkRange v0 n0
+mkRange v1 n0
+rg v1 setStart n2 1
+rg v1 setEnd n2 2
+rg v0 setStart n2 3
+rg v0 setEnd n1 2
+rg v0 delete
+rg v1 get''',
  'getElementById-after-removeAttribute': '''newdoc=n0 ~ r 0
 bind=n1 n0 de
 setAttr n1 id x
@@ -167,6 +200,7 @@ ASSUMPTIONS = [
     'Range: setters given a node of another document, insertNode at the edge of a Text node, boundary points inside comments / PIs for '
     'insertNode and surroundContents, boundary containers inside a released subtree: not decided by the model (skipped, counted)',
     'getElementById is only compared when at most one live attribute carries the value as a user-determined ID and its element is in the document',
+    'XPath evaluation results are not covered by this check (DOMXPathExpression here implements the schema XPath subset and keeps no live state)',
 ]
 
 NEED = ['it:next', 'it:prev', 'tw:next', 'tw:prev', 'tw:parent', 'list:tag-all', 'list:children-all', 'map:names', 'rg:get', 'rg:toString',
